@@ -39,6 +39,7 @@ struct alg
   const char *name;
   size_t ctx_size;
   size_t dg_size;
+  size_t block;
   init_fn init;
   update_fn update;
   finish_fn finish;
@@ -52,7 +53,7 @@ static void u_sha1 (void *c, const uint8_t *d, size_t n) { MHD_SHA1_update (c, d
 static void f_sha1 (void *c, uint8_t *o) { MHD_SHA1_finish (c, o); }
 static void s_sha1 (void *c, uint64_t n, uint64_t hi) { (void) hi; ((struct sha1_ctx *) c)->count = n; }
 static struct alg algs[] = {
-  { "wssha1", sizeof (struct sha1_ctx), SHA1_DIGEST_SIZE, i_sha1, u_sha1, f_sha1, s_sha1, {0} },
+  { "wssha1", sizeof (struct sha1_ctx), SHA1_DIGEST_SIZE, SHA1_BLOCK_SIZE, i_sha1, u_sha1, f_sha1, s_sha1, {0} },
 };
 #else
 static void i_md5 (void *c) { MHD_MD5_init (c); }
@@ -73,10 +74,10 @@ static void s_sha256 (void *c, uint64_t n, uint64_t hi) { (void) hi; ((struct Sh
 static void s_sha512 (void *c, uint64_t n, uint64_t hi)
 { ((struct Sha512_256Ctx *) c)->count = n; ((struct Sha512_256Ctx *) c)->count_bits_hi = hi; }
 static struct alg algs[] = {
-  { "md5", sizeof (struct Md5Ctx), MD5_DIGEST_SIZE, i_md5, u_md5, f_md5, s_md5, {0} },
-  { "sha1", sizeof (struct sha1_ctx), SHA1_DIGEST_SIZE, i_sha1, u_sha1, f_sha1, s_sha1, {0} },
-  { "sha256", sizeof (struct Sha256Ctx), SHA256_DIGEST_SIZE, i_sha256, u_sha256, f_sha256, s_sha256, {0} },
-  { "sha512_256", sizeof (struct Sha512_256Ctx), SHA512_256_DIGEST_SIZE, i_sha512, u_sha512, f_sha512, s_sha512, {0} },
+  { "md5", sizeof (struct Md5Ctx), MD5_DIGEST_SIZE, MD5_BLOCK_SIZE, i_md5, u_md5, f_md5, s_md5, {0} },
+  { "sha1", sizeof (struct sha1_ctx), SHA1_DIGEST_SIZE, SHA1_BLOCK_SIZE, i_sha1, u_sha1, f_sha1, s_sha1, {0} },
+  { "sha256", sizeof (struct Sha256Ctx), SHA256_DIGEST_SIZE, SHA256_BLOCK_SIZE, i_sha256, u_sha256, f_sha256, s_sha256, {0} },
+  { "sha512_256", sizeof (struct Sha512_256Ctx), SHA512_256_DIGEST_SIZE, SHA512_256_BLOCK_SIZE, i_sha512, u_sha512, f_sha512, s_sha512, {0} },
 };
 #endif
 #define NALG (sizeof (algs) / sizeof (algs[0]))
@@ -107,6 +108,7 @@ static uint8_t *place (const uint8_t *data, size_t len, unsigned mis, void **bas
 int main (void)
 {
   struct lp_line l = {0};
+  setvbuf (stdout, NULL, _IOLBF, 0);   /* a sanitizer abort must not lose the lines already produced */
   while (lp_read (stdin, &l))
   {
     struct alg *a = (l.n >= 2) ? find (l.w[1]) : NULL;
@@ -123,7 +125,7 @@ int main (void)
          blocks left H unchanged) have been hashed already — the only way to reach the
          byte-counter wrap-arounds.  For sha512_256: count < 2^61, hi = count_bits_hi */
       uint64_t n, hi;
-      if (! lp_u64 (l.w[2], &n) || ! lp_u64 (l.w[3], &hi)) { puts ("bad-op"); continue; }
+      if (! lp_u64 (l.w[2], &n) || ! lp_u64 (l.w[3], &hi) || 0 != n % a->block) { puts ("bad-op"); continue; }
       for (int k = 0; k < NREP; k++) a->setcount (a->ctx[k], n, hi);
       puts ("ok");
     }
